@@ -127,9 +127,11 @@ def mentions_state(node, sc: Scope) -> bool:
 class Ctx:
     """Per-call translation context."""
 
-    def __init__(self, pure=(), bound=None):
+    def __init__(self, pure=(), bound=None, work_tag=None, contexts=()):
         self.pure = set(pure)         # dotted callee names (methods of the model / algorithm) checked to be State-free
         self.bound = bound if bound is not None else set()   # python names already bound to a State object in the program
+        self.work_tag = work_tag      # tag of the opaque activity a confined loop of this call belongs to (None: no such loop)
+        self.contexts = set(contexts)  # context managers that take the model but perform no State operation of the model
 
 
 def object_calls(node, sc: Scope):
@@ -377,7 +379,7 @@ class Walker:
             out.append(("AFork", o, False))
             return r
         d = dotted(ce.func) if isinstance(ce, ast.Call) else None
-        if d in self.ctx.pure and not any(obj_of(a, sc) is not None for a in ce.args):
+        if (d in self.ctx.pure or d in self.ctx.contexts) and not any(obj_of(a, sc) is not None for a in ce.args):
             return self.block(st.body, sc, out, what)
         raise Untranslatable(f"{what}: `with {ast.unparse(ce)}` is not a known context")
 
@@ -456,8 +458,105 @@ class Walker:
                 else:
                     out.append(("APut", o, ("GObs",), ("VIn", ast.unparse(a.value))))
                 return None
+        if self.ctx.work_tag is not None and mentions_state(st, sc):
+            o = confined_region(st, sc, self.ctx, what)
+            add_work(out, self.ctx.work_tag, o)
+            return None
         require_state_free(st, sc, self.ctx, what)
         return None
+
+
+def add_work(out, tag, o):
+    if out and out[-1] == ("AWork", tag, o):
+        return                          # the same activity goes on
+    out.append(("AWork", tag, o))
+
+
+def confined_region(node, sc: Scope, ctx: Ctx, what: str):
+    """A statement (typically the sampling loop) all of whose State operations are on ONE object: that object.  No clone,
+    no aliasing, no `model.state`, no per-individual dictionary; a State is passed only as first argument of `.sample(...)`;
+    other calls on the algorithm are known to be State-free."""
+    objs = set()
+    for n in ast.walk(node):
+        if isinstance(n, ast.Attribute) and n.attr in ("state", "_state"):
+            raise Untranslatable(f"{what}: `{ast.unparse(n)}` inside an activity that must be confined to a local State name")
+        if isinstance(n, ast.Name) and n.id in sc.dicts:
+            raise Untranslatable(f"{what}: dictionary of States used inside a confined activity")
+        if isinstance(n, ast.Name) and n.id in sc.states:
+            objs.add(sc.states[n.id])
+            if isinstance(n.ctx, ast.Store):
+                raise Untranslatable(f"{what}: State name `{n.id}` re-bound inside a confined activity")
+        if isinstance(n, ast.Call):
+            if isinstance(n.func, ast.Attribute) and n.func.attr in ("clone", "auto_fork"):
+                raise Untranslatable(f"{what}: `{ast.unparse(n)[:80]}` inside a confined activity")
+            for i, a in enumerate(list(n.args) + [k.value for k in n.keywords]):
+                if obj_of(a, sc) is not None and not (isinstance(n.func, ast.Attribute) and n.func.attr == "sample" and i == 0):
+                    raise Untranslatable(f"{what}: a State is passed to `{ast.unparse(n.func)}` inside a confined activity")
+        if isinstance(n, (ast.Assign, ast.AugAssign)):
+            for t in (n.targets if isinstance(n, ast.Assign) else [n.target]):
+                for m in ast.walk(t):
+                    if isinstance(m, ast.Subscript) and obj_of(m.value, sc) is not None:
+                        raise Untranslatable(f"{what}: direct assignment to a State inside a confined activity: {ast.unparse(n)[:100]}")
+    for d in object_calls(node, sc):
+        if d not in ctx.pure:
+            raise Untranslatable(f"{what}: call `{d}` inside a confined activity is not known to be State-free")
+    if len(objs) != 1:
+        raise Untranslatable(f"{what}: confined activity addresses {len(objs)} State objects")
+    return objs.pop()
+
+
+def confined_method(tables, name, param, what, seen=None):
+    """Method `name` only ever uses the State it receives as `param`: no `.state` attribute, no clone, and it hands the State
+    only to methods of the same object that are confined too (or to `minimize(..., args=(state, ...))`)."""
+    seen = seen if seen is not None else set()
+    if (name, param) in seen:
+        return
+    seen.add((name, param))
+    fn = None
+    for t in tables:
+        if name in t:
+            fn = t[name]
+            break
+    if fn is None:
+        raise Untranslatable(f"{what}: method `{name}` not found")
+    pos, kwo = params_of(fn)
+    if param not in pos + kwo:
+        raise Untranslatable(f"{what}: `{name}` has no parameter `{param}`")
+    for n in ast.walk(fn):
+        if isinstance(n, ast.Attribute) and n.attr in ("state", "_state"):
+            raise Untranslatable(f"{what}: `{name}` names `{ast.unparse(n)}`")
+        if isinstance(n, ast.Name) and n.id == param and isinstance(n.ctx, ast.Store):
+            raise Untranslatable(f"{what}: `{name}` re-binds `{param}`")
+        if isinstance(n, ast.Call):
+            if isinstance(n.func, ast.Attribute) and n.func.attr == "clone":
+                raise Untranslatable(f"{what}: `{name}` clones a State")
+            d = dotted(n.func)
+            passes = [i for i, a in enumerate(n.args) if isinstance(a, ast.Name) and a.id == param]
+            kpasses = [k.arg for k in n.keywords if isinstance(k.value, ast.Name) and k.value.id == param]
+            if d and d.startswith("self.") and d.count(".") == 1 and (passes or kpasses):
+                callee = d.split(".")[1]
+                cfn = next((t[callee] for t in tables if callee in t), None)
+                if cfn is None:
+                    raise Untranslatable(f"{what}: `{name}` hands its State to unknown `{d}`")
+                cpos, _ = params_of(cfn)
+                cpos = cpos[1:] if cpos and cpos[0] == "self" else cpos
+                for i in passes:
+                    if i >= len(cpos):
+                        raise Untranslatable(f"{what}: `{d}` positional State argument out of range")
+                    confined_method(tables, callee, cpos[i], what, seen)
+                for k in kpasses:
+                    confined_method(tables, callee, k, what, seen)
+
+
+def no_model_state_in(path, what):
+    tree = ast.parse(path.read_text())
+    for n in ast.walk(tree):
+        if isinstance(n, ast.Attribute) and n.attr in ("state", "_state"):
+            raise Untranslatable(f"{what}: {path.name} names `{ast.unparse(n)}`")
+        if isinstance(n, ast.Call) and isinstance(n.func, ast.Attribute) and n.func.attr == "clone" and not n.args and "tensor" not in ast.unparse(n.func.value):
+            src = ast.unparse(n.func.value)
+            if "state" in src:
+                raise Untranslatable(f"{what}: {path.name} clones a State: {ast.unparse(n)}")
 
 
 # ----------------------------------------------------------------------------- helpers shared by the calls
@@ -663,13 +762,250 @@ def tr_estimate(src: Sources):
     return progs
 
 
+# ----------------------------------------------------------------------------- personalize: common entry
+
+
+def require_text(fn, text, what):
+    want = ast.unparse(ast.parse(text))
+    for node in ast.walk(fn):
+        if isinstance(node, ast.stmt) and ast.unparse(node) == want:
+            return node
+    raise Untranslatable(f"{fn.name}: statement not found ({what}): {text}")
+
+
+def names_no_state(fn, what):
+    for n in ast.walk(fn):
+        if isinstance(n, ast.Attribute) and n.attr in ("state", "_state"):
+            raise Untranslatable(f"{what}: `{fn.name}` names `{ast.unparse(n)}`")
+
+
+def tr_entry(src: Sources, public: str, arg: str):
+    """BaseModel.<public> -> `algorithm.run(<arg>)` -> BaseAlgorithm.run: `_initialize_seed(self.seed)` (random, numpy,
+    torch in this order) BEFORE `_run`, and none of these functions names a State."""
+    fn = src.method(src.base_model, public, public)
+    names_no_state(fn, public)
+    require_text(fn, f"return algorithm.run({arg})", "the algorithm is run on the model itself")
+    for d in object_calls(fn, Scope({"self"})):
+        raise Untranslatable(f"{public}: unexpected call `{d}` on the model before the algorithm runs")
+    run = src.method(src.algo_base, "run", "BaseAlgorithm.run")
+    names_no_state(run, "BaseAlgorithm.run")
+    body = [st for st in run.body]
+    idx_seed = [i for i, st in enumerate(body) if ast.unparse(st) == "self._initialize_seed(self.seed)"]
+    idx_run = [i for i, st in enumerate(body) if ast.unparse(st) == "output = self._run(model, **run_kwargs)"]
+    if len(idx_seed) != 1 or len(idx_run) != 1 or idx_seed[0] > idx_run[0]:
+        raise Untranslatable("BaseAlgorithm.run: `self._initialize_seed(self.seed)` does not precede `output = self._run(model, **run_kwargs)`")
+    for d in object_calls(run, Scope({"model"})):
+        if d not in ("self._initialize_seed", "self._run", "self._duration_to_str", "self.algo_parameters.get", "self.family.value.title"):
+            raise Untranslatable(f"BaseAlgorithm.run: unexpected call `{d}`")
+    seed = src.method(src.algo_base, "_initialize_seed", "_initialize_seed")
+    want = "if seed is not None:\n    random.seed(seed)\n    np.random.seed(seed)\n    torch.manual_seed(seed)\n    print(f' ==> Setting seed to {seed}')"
+    require_text(seed, want, "the three generators are seeded, python / numpy / torch")
+    return [("ASeed",)]
+
+
+def algo_pure_tables():
+    return [load_methods(SRC / "algo" / "base.py", None), load_methods(SRC / "algo" / "algo_with_samplers.py", None),
+            load_methods(SRC / "algo" / "algo_with_annealing.py", None), load_methods(SRC / "algo" / "algo_with_device.py", None)]
+
+
+# ----------------------------------------------------------------------------- personalize: mean_posterior / mode_posterior
+
+
+def tr_mcmc(src: Sources):
+    out = tr_entry(src, "personalize", "self, dataset")
+    run = src.method(src.pers_base, "_run", "PersonalizeAlgorithm._run")
+    require_text(run, "return self._compute_individual_parameters(model, dataset, **kwargs)", "personalize runs _compute_individual_parameters")
+    tables = algo_pure_tables()
+    pure = ["_is_burn_in", "_update_temperature", "_display_progress_bar", "_initialize_annealing"]
+    check_pure(tables, pure, "mcmc")
+    for cls, f in (("MeanPosteriorAlgorithm", "mean_posterior.py"), ("ModePosteriorAlgorithm", "mode_posterior.py")):
+        t = load_methods(SRC / "algo" / "personalize" / f, None)
+        check_pure([t], ["_compute_individual_parameters_from_samples_torch"], f)
+        for name, fn in t.items():
+            if name in ("_compute_individual_parameters", "_get_individual_parameters", "_initialize_algo", "_terminate_algo", "_run", "run"):
+                raise Untranslatable(f"{f} overrides `{name}`")
+    confined_method(tables, "_initialize_samplers", "state", "mcmc")
+    for f in ("base.py", "gibbs.py", "factory.py"):
+        no_model_state_in(SRC / "samplers" / f, "samplers")
+    ctx = Ctx(pure={"self." + x for x in pure} | {"self._compute_individual_parameters_from_samples_torch", "self.algo_parameters.get",
+                                                  "self.samplers", "self.random_order_variables"},
+              work_tag="sampling", contexts={"self._device_manager"})
+    helpers = model_helpers(src, src.mcmc_model)
+
+    def h_samplers(w, call, sc, out, what):
+        if dotted(call.func) != "self._initialize_samplers":
+            return NotImplemented
+        if len(call.args) != 2 or call.keywords or obj_of(call.args[0], sc) is None or mentions_state(call.args[1], sc):
+            raise Untranslatable(f"{what}: _initialize_samplers of unknown form: {ast.unparse(call)}")
+        add_work(out, "sampling", obj_of(call.args[0], sc))
+        return None
+
+    def inline_self(name, state_params=()):
+        def h(w, call, sc, out, what):
+            if dotted(call.func) != "self." + name:
+                return NotImplemented
+            fn = src.method(src.mcmc, name, what)
+            m = bind_call(fn, call)
+            if "model" not in m or dotted(m["model"]) not in sc.model:
+                raise Untranslatable(f"{what}: `{name}` is not called on the model: {ast.unparse(call)}")
+            states = {}
+            for k, v in m.items():
+                if k in state_params:
+                    o = obj_of(v, sc)
+                    if o is None:
+                        raise Untranslatable(f"{what}: `{name}` receives an unknown State: {ast.unparse(call)}")
+                    states[k] = o
+                elif k != "model" and mentions_state(v, sc):
+                    raise Untranslatable(f"{what}: `{name}` receives a State in `{k}`")
+            inner = Scope({"model"}, states)
+            return Walker(w.ctx, w.helpers).block(fn.body, inner, out, name)
+        return h
+
+    helpers.update({"_initialize_samplers": h_samplers,
+                    "_get_individual_parameters": inline_self("_get_individual_parameters"),
+                    "_initialize_algo": inline_self("_initialize_algo"),
+                    "_terminate_algo": inline_self("_terminate_algo", ("state",))})
+    fn = src.method(src.mcmc, "_compute_individual_parameters", "mcmc")
+    Walker(ctx, helpers).block(fn.body, Scope({"model"}), out, "mcmc._compute_individual_parameters")
+    return {"gen_mcmc": out}
+
+
+# ----------------------------------------------------------------------------- personalize: scipy_minimize
+
+
+def tr_scipy(src: Sources):
+    out = tr_entry(src, "personalize", "self, dataset")
+    fn = src.method(src.scipy, "_compute_individual_parameters", "scipy")
+    tables = [src.scipy] + algo_pure_tables()
+    pure = ["_display_progress_bar", "is_jacobian_implemented"]
+    check_pure(tables, ["_display_progress_bar"], "scipy")
+    jac = src.method(src.scipy, "is_jacobian_implemented", "scipy")
+    names_no_state(jac, "scipy")
+    if ast.unparse(jac.body[-1]).replace(" ", "") != "returnany(('jacobian'invar_nameforvar_nameinmodel.dag))":
+        raise Untranslatable("scipy: is_jacobian_implemented does more than looking at the names of the DAG")
+    # the per-individual work: confined to the State it is given
+    confined_method(tables, "_get_individual_parameters_patient_master", "state", "scipy")
+    # put_individual_parameters of every shipped model: confined to its `state` parameter
+    for f, cls in (("time_reparametrized.py", "TimeReparametrizedModel"), ("joint.py", "JointModel"), ("mixture.py", None)):
+        t = load_methods(SRC / "models" / f, cls)
+        confined_method([t], "put_individual_parameters", "state", f"models/{f}")
+    ctx = Ctx(pure={"self." + x for x in pure} | {"self.algo_parameters.get"})
+    helpers = model_helpers(src, src.mcmc_model)
+
+    def h_put_ind(w, call, sc, out, what):
+        if dotted(call.func.value) not in sc.model:
+            return NotImplemented
+        if len(call.args) != 2 or call.keywords or obj_of(call.args[0], sc) is None or mentions_state(call.args[1], sc):
+            raise Untranslatable(f"{what}: put_individual_parameters of unknown form: {ast.unparse(call)}")
+        add_work(out, "put_individual_parameters", obj_of(call.args[0], sc))
+        return None
+
+    def h_from_state(w, call, sc, out, what):
+        if dotted(call.func) != "_AffineScalings1D.from_state":
+            return NotImplemented
+        if len(call.args) != 1 or obj_of(call.args[0], sc) is None or [k.arg for k in call.keywords] != ["var_type"] \
+                or dotted(call.keywords[0].value) != "IndividualLatentVariable":
+            raise Untranslatable(f"{what}: scalings of unknown form: {ast.unparse(call)}")
+        out.append(("AGet", obj_of(call.args[0], sc), ("GScal",)))
+        return None
+    helpers.update({"put_individual_parameters": h_put_ind, "from_state": h_from_state})
+    # `_AffineScalings1D.from_state` only reads the State it is given
+    sc_t = load_methods(SRC / "algo" / "personalize" / "scipy_minimize.py", "_AffineScalings1D")
+    fs = sc_t.get("from_state")
+    if fs is None:
+        raise Untranslatable("scipy: _AffineScalings1D.from_state not found")
+    for n in ast.walk(fs):
+        if isinstance(n, (ast.Assign, ast.AugAssign)):
+            for t in (n.targets if isinstance(n, ast.Assign) else [n.target]):
+                if "state" in ast.unparse(t).split("=")[0] and isinstance(t, ast.Subscript):
+                    raise Untranslatable("scipy: _AffineScalings1D.from_state assigns to the State")
+        if isinstance(n, ast.Call) and isinstance(n.func, ast.Attribute) and n.func.attr in ("clone", "put", "put_individual_latent_variables", "__setitem__"):
+            raise Untranslatable(f"scipy: _AffineScalings1D.from_state calls `{n.func.attr}`")
+
+    w = Walker(ctx, helpers)
+    sc = Scope({"model"})
+    top = []
+    for st in fn.body:
+        # the loop over the individuals that builds one State each
+        if isinstance(st, ast.For) and ast.unparse(st.iter) == "dataset.indices" and isinstance(st.target, ast.Name) and not st.orelse \
+                and mentions_state(st, sc):
+            body = []
+            w.block(st.body, sc.child(loopvar=st.target.id, dicts=sc.dicts, states=sc.states), body, "scipy loop")
+            top.append(("SForInd", body))
+            continue
+        # the dispatch: one job per State, in the order of the dictionary
+        if isinstance(st, ast.Assign) and "Parallel" in ast.unparse(st.value):
+            want = ("ind_p_all = Parallel(n_jobs=self.algo_parameters['n_jobs'])((delayed(self._get_individual_parameters_patient_master)"
+                    "(state_pat, scaling=ips_scalings, progress=(it_pat, dataset.n_individuals), with_jac=with_jac, patient_id=id_pat) "
+                    "for it_pat, (id_pat, state_pat) in enumerate(states.items())))")
+            if ast.unparse(st) != ast.unparse(ast.parse(want)):
+                raise Untranslatable("scipy: the dispatch of the per-individual jobs is not the known `Parallel(...)(... for ... in enumerate(states.items()))`")
+            if "states" not in sc.dicts:
+                raise Untranslatable("scipy: `states` is not the dictionary filled with the per-individual clones")
+            top.append(("SForInd", [("AWork", "patient", ("OAt", "states"))]))
+            continue
+        atoms = []
+        w.stmt(st, sc, atoms, "scipy._compute_individual_parameters")
+        top.extend(atoms)
+    return {"gen_scipy": out + top, "gen_scipy_dispatch": "Parallel(n_jobs=self.algo_parameters['n_jobs'])"}
+
+
+# ----------------------------------------------------------------------------- settings
+
+
+def tr_settings(src: Sources):
+    """`self.algo_parameters = deepcopy(settings.parameters)` in BaseAlgorithm.__init__, nobody re-binds `algo_parameters` to the
+    caller's dictionary, nobody writes through `settings.parameters`."""
+    init = src.method(src.algo_base, "__init__", "BaseAlgorithm.__init__")
+    asg = [n for n in ast.walk(init) if isinstance(n, ast.Assign) and any(ast.unparse(t) == "self.algo_parameters" for t in n.targets)]
+    if len(asg) != 1:
+        raise Untranslatable("BaseAlgorithm.__init__: algo_parameters not assigned exactly once")
+    v = ast.unparse(asg[0].value)
+    kind = {"deepcopy(settings.parameters)": "CopyDeep", "copy.deepcopy(settings.parameters)": "CopyDeep",
+            "settings.parameters": "CopyAlias", "dict(settings.parameters)": "CopyShallow", "settings.parameters.copy()": "CopyShallow",
+            "copy(settings.parameters)": "CopyShallow", "copy.copy(settings.parameters)": "CopyShallow"}.get(v)
+    if kind is None:
+        raise Untranslatable(f"BaseAlgorithm.__init__: algo_parameters = {v}: unknown kind of copy")
+    if kind == "CopyDeep":
+        mod = ast.parse((SRC / "algo" / "base.py").read_text())
+        if not any(isinstance(n, ast.ImportFrom) and n.module == "copy" and any(a.name == "deepcopy" and a.asname is None for a in n.names) for n in mod.body) \
+                and "copy.deepcopy" not in v:
+            raise Untranslatable("algo/base.py: `deepcopy` is not copy.deepcopy")
+    # every other module of leaspy.algo: no re-binding of algo_parameters to the settings' dictionary, no write through settings.parameters
+    for path in sorted((SRC / "algo").rglob("*.py")):
+        tree = ast.parse(path.read_text())
+        for n in ast.walk(tree):
+            tg = []
+            if isinstance(n, ast.Assign):
+                tg = n.targets
+            elif isinstance(n, (ast.AugAssign, ast.AnnAssign)):
+                tg = [n.target]
+            for t in tg:
+                txt = ast.unparse(t)
+                if txt.endswith(".algo_parameters") and n is not asg[0] and path.name != "settings.py":
+                    val = ast.unparse(n.value) if getattr(n, "value", None) is not None else ""
+                    if "settings" in val and "deepcopy" not in val:
+                        raise Untranslatable(f"{path.name}: `{ast.unparse(n)[:100]}` binds algo_parameters to the caller's settings")
+                if path.name != "settings.py" and isinstance(t, ast.Subscript) and ast.unparse(t.value).startswith("settings.parameters"):
+                    raise Untranslatable(f"{path.name}: `{ast.unparse(n)[:100]}` writes into the caller's settings")
+            if isinstance(n, ast.Call) and isinstance(n.func, ast.Attribute) and n.func.attr in ("update", "pop", "setdefault", "clear", "popitem", "__setitem__") \
+                    and ast.unparse(n.func.value).startswith("settings.parameters") and path.name != "settings.py":
+                raise Untranslatable(f"{path.name}: `{ast.unparse(n)[:100]}` mutates the caller's settings")
+    return {"gen_settings_copy": kind}
+
+
 # ----------------------------------------------------------------------------- entry point
 
 
 def build(src: Sources | None = None):
+    import warnings
+    warnings.simplefilter("ignore", SyntaxWarning)      # docstrings of the translated sources
     src = src or Sources()
     progs = {}
     progs.update(tr_estimate(src))
+    progs.update(tr_mcmc(src))
+    progs.update(tr_scipy(src))
+    progs.update(tr_settings(src))
     return progs
 
 
@@ -678,7 +1014,12 @@ def translate(run: Run) -> bool:
         progs = build()
         out = [HEADER]
         for name, p in progs.items():
-            out.append(f"Definition {name} : prog :=\n  {coq_prog(p)}.\n")
+            if name == "gen_settings_copy":
+                out.append(f"Definition {name} : copy_kind := {p}.\n")
+            elif isinstance(p, str):
+                out.append(f"Definition {name} : string := {coq_str(p)}.\n")
+            else:
+                out.append(f"Definition {name} : prog :=\n  {coq_prog(p)}.\n")
         run.gen("GenC13", "\n".join(out))
         run.trusted.append("translator harness/translate/c13_calls.py (python ast -> source-level programs of Api/SrcProg.v: which State "
                            "object each clone / put / read / clean-up / `model.state =` addresses, copied from the source)")
